@@ -26,11 +26,11 @@ Definition run_swap (ps : Z) (ms : list mline) (si : Z * Z * Z) (vs : option (li
   let mi := k_meminfo ms in
   let vi := option_map k_vmstat vs in
   JL [ JB mi; jopt JB vi;
-       jv_outcome jv_swap (swap_memory mi si vi);
+       jv_outcome jv_swap (swap_memory ps mi si vi);
        (if wf_kernel k then JC "Val" [jv_swap (spec_swap k)] else jnone) ].
 
 (* arbitrary (possibly malformed) bytes: model answer only *)
 Definition run_vm_raw (ps : Z) (mi : bytes) (zi : option bytes) : jv :=
   JL [ jv_outcome jv_vm (virtual_memory ps mi zi) ].
-Definition run_swap_raw (mi : bytes) (si : Z * Z * Z) (vi : option bytes) : jv :=
-  JL [ jv_outcome jv_swap (swap_memory mi si vi) ].
+Definition run_swap_raw (ps : Z) (mi : bytes) (si : Z * Z * Z) (vi : option bytes) : jv :=
+  JL [ jv_outcome jv_swap (swap_memory ps mi si vi) ].
